@@ -1287,7 +1287,9 @@ where
                         )
                         .await?;
 
-                        if !server.in_transaction() {
+                        // A COPY that has only just started is not a finished transaction:
+                        // it is counted when CopyDone/CopyFail completes it.
+                        if !server.in_transaction() && !server.in_copy_mode() {
                             // Report transaction executed statistics.
                             self.stats.transaction();
                             server
@@ -1296,7 +1298,7 @@ where
 
                             // Release server back to the pool if we are in transaction mode.
                             // If we are in session mode, we keep the server until the client disconnects.
-                            if self.transaction_mode && !server.in_copy_mode() {
+                            if self.transaction_mode {
                                 self.stats.idle();
 
                                 break;
@@ -1552,7 +1554,7 @@ where
 
                         self.buffer.clear();
 
-                        if !server.in_transaction() {
+                        if !server.in_transaction() && !server.in_copy_mode() {
                             self.stats.transaction();
                             server
                                 .stats()
@@ -1560,7 +1562,7 @@ where
 
                             // Release server back to the pool if we are in transaction mode.
                             // If we are in session mode, we keep the server until the client disconnects.
-                            if self.transaction_mode && !server.in_copy_mode() {
+                            if self.transaction_mode {
                                 break;
                             }
                         }
